@@ -32,7 +32,9 @@ ATOMS = [u"a", u"b", u"x", u"1", u",", u'"', u"[", u"]", u"(", u")", u";", u"\n"
          u"\xa0", u"<", u"&", u"\xe9", u"中", u"\t", u"'", u">", u"-", u"."]
 POOL = [u"a", u"b", u"a,b", u'x"', u'"x', u'a"b', u"[a]", u"[]", u"[", u"]", u"", u" ", u" a ",
         u"a\nb", u"a\r\nb", u"a\rb", u"<&>", u"\xe9中", u"None", u"(1;2)", u"a;b", u"\xa0a",
-        u"a, b", u'""', u'"', u"[a,b]", u"1", u"True", u"x y", u"\ta\t", u"a]", u"[a"]
+        u"a, b", u'""', u'"', u"[a,b]", u"1", u"True", u"x y", u"\ta\t", u"a]", u"[a",
+        # line boundaries of str.splitlines() that are no line ends for csv / XML 1.0
+        u"a\u2028b", u"a\x85b", u"a\u2029b,c"]
 REPOS = [None, None, None, u"file:///nonexistent/terms.xml"]
 TEMPLATE = u'<xsl:template match="odML"><b>custom</b></xsl:template>'
 
